@@ -67,6 +67,26 @@ Theorem C11_prec_resolve :
     resolve_conflict ls (Some o2) [Reduce p; Shift t] = answer.
 Proof. intros ls o1 o2 t p Hp. exact (resolve_shift_reduce ls o1 o2 t p Hp). Qed.
 
+(** Cells with any number of actions.  If every action of ACTION[s,a] has a declared handle and
+    different actions lie on different precedence levels ([ranked_cell]), then for EVERY order
+    (and multiplicity) in which the cell is enumerated [resolveConflict] succeeds and returns the
+    action on the highest level (smallest level index): the running maximum never meets an
+    undetermined comparison.  (When two actions of the cell share a level the Go loop is genuinely
+    order dependent: whether the tie is ever compared depends on the iteration order; such cells
+    are outside this statement and outside the generators.) *)
+Theorem C11_prec_resolve_any :
+  forall (ls : levels) (a : look) (l : list action),
+    l <> [] -> ranked_cell ls a l ->
+    exists x k, resolve_conflict ls a l = Some x /\ In x l /\ alevel ls a x = Some k /\
+      forall y ky, In y l -> alevel ls a y = Some ky -> k <= ky.
+Proof. intros ls a l. apply resolve_conflict_max. Qed.
+
+Theorem C11_prec_resolve_order_independent :
+  forall (ls : levels) (a : look) (l l' : list action),
+    l <> [] -> ranked_cell ls a l -> (forall x, In x l <-> In x l') ->
+    resolve_conflict ls a l = resolve_conflict ls a l'.
+Proof. intros ls a l l'. apply resolve_conflict_order_independent. Qed.
+
 (** Precedence, at the level of the parser: for E -> E op E | ( E ) | id with 1, 2 or 3
     operators and every declaration [ls] (every ordered partition of the operators into levels,
     every associativity per level: 3 + 21 + 219 declarations), the modelled SLR construction
@@ -348,6 +368,8 @@ Print Assumptions C11_term_ok_mono.
 Print Assumptions C11_oracle_sound.
 Print Assumptions C11_oracle_complete.
 Print Assumptions C11_prec_resolve.
+Print Assumptions C11_prec_resolve_any.
+Print Assumptions C11_prec_resolve_order_independent.
 Print Assumptions C11_prec.
 Print Assumptions C11_recognises_partial.
 Print Assumptions C11_lr0_closure.
